@@ -29,6 +29,9 @@ def specs(size):
     return out
 
 
+CASE_TIMEOUT = 60      # the 8 MiB transfer over a real connection may take a while under load
+
+
 def cases(tier, seed, ctx=None):
     rng = Rng(seed)
     ver = ctx["probe"]("version", [[]])[0][0]
